@@ -47,8 +47,14 @@ Definition literal_value (t : tok) : option val :=
   else None.
 
 (* an integer literal with an exponent above 308 is rejected while the token is built (fix 24efa0a) *)
+(* ... and so is one whose integer digits, or whose exponent's digits, are more than int() converts (4300 digits; fix 34418e3): int() is only
+   reached when there is no fraction *)
+Definition ndigits (s : string) : Z :=
+  match s with String c r => if (N_of_ascii c =? 45)%N then Z.of_nat (String.length r) else Z.of_nat (String.length s) | EmptyString => 0 end.
 Definition literal_rejected (t : tok) : bool :=
-  negb (String.eqb (grp t 2) "") && String.eqb (grp t 5) "" && negb (String.eqb (grp t 7) "") && (308 <? signed_Z (grp t 7)).
+  negb (String.eqb (grp t 2) "") && String.eqb (grp t 5) "" &&
+  ((negb (String.eqb (grp t 7) "") && (308 <? signed_Z (grp t 7))) || (4300 <? ndigits (grp t 7)) ||
+   ((4300 <? ndigits (grp t 2)) && negb (signed_Z (grp t 7) <? 0))).
 
 (* ---------- the token properties the translator reads ---------- *)
 Definition is_nt (n : nat) (t : tree) : bool := match t with Node m _ _ => Nat.eqb m n | Leaf _ => false end.
